@@ -173,7 +173,9 @@ def run_case(spec):
                     certificate(site, rec2, M2, M0inv, gamma, tr + ['max_iter=%d' % mi, 'refit'], viol, False, stats)
                     if not np.array_equal(M, M2):
                         viol.append(V(site, 'refit_differs', 'a second fit of the same object gives another matrix', tr + ['refit']))
-        return dict(evals=evals, sigs=sigs, viol=viol, states=states, transitions=trans, stats=stats,
+        return dict(evals=evals, sigs=sigs, viol=viol, states=states, transitions=trans,
+                    stats={k: v for k, v in stats.items() if not k.startswith('worst_')},
+                    headroom={k: v for k, v in stats.items() if k.startswith('worst_')},
                     sample={'learner': 'ITML', 'dataset': dsn, 'prior': pr, 'gamma': gamma, 'bounds': list(bsets), 'budgets': '1..%d + converged' % K})
     K = spec[3]
     for s in (0, 1, 2):
@@ -195,5 +197,7 @@ def run_case(spec):
             certificate('ITML_Supervised.fit', rec, est.get_mahalanobis_matrix(), M0inv, 1.0, [pr, 'supervised', 'max_iter=%d' % mi], viol, conv, stats)
             if np.any(np.asarray(rec['_lambda']) > 0):
                 sigs.add(('sup', dsn, pr, s, mi))
-    return dict(evals=evals, sigs=sigs, viol=viol, states=states, transitions=trans, stats=stats,
+    return dict(evals=evals, sigs=sigs, viol=viol, states=states, transitions=trans,
+                    stats={k: v for k, v in stats.items() if not k.startswith('worst_')},
+                    headroom={k: v for k, v in stats.items() if k.startswith('worst_')},
                 sample={'learner': 'ITML_Supervised', 'dataset': dsn, 'prior': pr, 'seeds': [0, 1, 2]})
